@@ -84,6 +84,11 @@ def annot_variants(t, rng):
     if "Leaf" in base:
         out.append(("qualified", base.replace("Leaf", "pkg.Leaf")))
         out.append(("qualified-sp", base.replace("Leaf", "base . Leaf")))
+    for nm in ("Enum", "MyI64", "MyI32", "MyStr", "MyBool", "MyF64", "MyI8"):
+        # package-qualified enum / typedef names
+        import re
+        if re.search(r"\b%s\b" % nm, base):
+            out.append(("qualified-" + nm, re.sub(r"\b%s\b" % nm, "pkg." + nm, base)))
     if t["k"] == "struct":
         out.append(("kw-struct", "struct"))
     if omittable(t):
@@ -132,7 +137,10 @@ def spell(fid, req, t, label, rng):
 
 
 EXTRA_MEMBERS = ["Untagged int32", "unexported int32 `frugal:\"900,default,i32\"`", "Leaf",
-                 "AlsoUntagged map[string][]string", "hidden []int32"]
+                 "AlsoUntagged map[string][]string", "hidden []int32",
+                 "Fix `frugal:\"901,default,Fix\"`",                  # tagged but embedded: ignored
+                 "*LeafReq `thrift:\"emb,902,optional\"`",            # tagged embedded pointer: ignored
+                 "lower string `thrift:\"lower,903,required\"`"]      # tagged but unexported: ignored
 
 
 def build_universe(rng, quick):
